@@ -252,7 +252,9 @@ func (conn *Conn) send(call *Call) {
 		// The call may already have been completed by the reader (response, or
 		// the sweep on connection loss); complete it only if it is still registered.
 		conn.mutex.Lock()
-		registered := isStreaming || conn.pending[seq] == call
+		// A stream message is not registered itself: the entry under its
+		// sequence number is the stream's own registration and stays.
+		registered := !isStreaming && conn.pending[seq] == call
 		if registered {
 			delete(conn.pending, seq)
 			if openStreaming {
@@ -260,7 +262,7 @@ func (conn *Conn) send(call *Call) {
 			}
 		}
 		conn.mutex.Unlock()
-		if registered {
+		if registered || isStreaming {
 			call.Error = err
 			call.done()
 		}
